@@ -81,6 +81,8 @@ def gamma_value(r):
     if k == "td":
         return datetime.timedelta(seconds=r[1])
     if k == "ppath":
+        if r[1].startswith("@"):       # a *pure* path that points at an existing file of the scratch directory
+            return pathlib.PurePosixPath(os.path.join(files_dir(), {"@image": "b.png", "@image2": "c.png", "@file": "a.txt"}[r[1]]))
         return pathlib.PurePosixPath(r[1])
     if k == "wpath":
         return pathlib.PureWindowsPath(r[1])
@@ -241,6 +243,7 @@ OBJ_POOL = [
     ["dt", "2020-01-01T00:00:00"], ["dt", "2020-01-01T10:00:00"], ["ts", "2020-01-01"], ["ts", "2020-01-01 05:00"],
     ["date", "2020-01-01"], ["date", "1999-12-31"], ["time", "10:00:00"], ["time", "00:00:00"], ["td", 5],
     ["ppath", "/a/b"], ["ppath", "rel/b"], ["wpath", "C:\\x\\y"], ["path", "exists"], ["path", "exists2"],
+    ["ppath", "@image"], ["ppath", "@image2"], ["ppath", "@file"],
     ["path", "image"], ["path", "image2"], ["path", "missing"], ["path", "rel"], ["path", "relexists"],
     ["url", "http://a.b/c"], ["url", "https://x.y"], ["url", "nothing"], ["spliturl", "http://a.b/c"],
     ["uuid", "0b8a22ca-80ad-4df5-85ac-fa49c44b7ede"], ["uuid", "00000000-0000-0000-0000-000000000001"],
